@@ -31,6 +31,7 @@ structure SpMat (α : Type) where
   nrows : Nat
   ncols : Nat
   cols : Array (List (Nat × α))
+deriving DecidableEq, Repr
 
 variable {α : Type} [Scal α]
 
@@ -260,6 +261,7 @@ def schur (upper : Bool) (M : SpMat α) (r : Nat) (withTrans : Bool) : Res (Schu
 
 structure UF where
   p : Array Nat
+deriving DecidableEq, Repr
 
 namespace UF
 
